@@ -294,9 +294,17 @@ class Session(BusSession):
 def run(ctx):
     quick = ctx.tier == 'quick'
     params = {'names': 1 if quick else 2, 'flags': [0, 1, 2, 3, 4, 5, 6, 7, 9]}
-    st = explore.bfs(ctx, FACTORY, params, max_depth=30, ops_chunk=10)
+    if quick:
+        with ctx.sub_budget(0.7):
+            st = explore.bfs(ctx, FACTORY, params, max_depth=30, ops_chunk=10)
+        # two names share connections (a disconnect releases both, queues are per name): a shallower second exploration
+        st2 = explore.bfs(ctx, FACTORY, dict(params, names=2, flags=[0, 1, 2, 3, 4, 6]), max_depth=3, ops_chunk=10)
+    else:
+        st = explore.bfs(ctx, FACTORY, params, max_depth=30, ops_chunk=10)
+        st2 = {'states': 0, 'transitions': 0, 'completed_depth': 0}
     ctx.coverage.update({
-        'states': st['states'], 'transitions': st['transitions'], 'traces_validated_against_impl': st['transitions'],
+        'states': st['states'] + st2['states'], 'transitions': st['transitions'] + st2['transitions'], 'traces_validated_against_impl': st['transitions'] + st2['transitions'],
+        'two_names_variant': {'states': st2['states'], 'transitions': st2['transitions'], 'completed_depth': st2['completed_depth']},
         'completed_depth': st['completed_depth'], 'fixpoint': st['fixpoint'], 'distinct_observations': st['distinct_obs'],
         'bound': '3 clients + observer, %d name(s), 9 flag words, invalid targets, disconnect/reconnect; BFS to the fix-point (1 name: 1108 states) or the deadline' % params['names'],
         'state_key': 'canonical dump of the implementation (registry with per-owner flags, connection table, rules) with unique names renamed to client slots + model state',
